@@ -119,7 +119,8 @@ Definition parse_tag_name (full : string) : string * string * bool :=
 (* ---------------------------------------------------------------- results *)
 Inductive err :=
   EBadName | EEmptySub | ERetype | EParse | ERelTime | EGrouping | ESelfRef | ECycle | EMarkNotId
-| EExists | EUnknownRef | EUnknownTag | EUnknownConv | EUnknownStream | ENotMark | EReferenced | EComplex.
+| EExists | EUnknownRef | EUnknownTag | EUnknownConv | EUnknownStream | ENotMark | EReferenced | EComplex
+| ESaveState.
 Inductive result := Ok | Err (e : err) | Crash | Hang.
 
 (* ---------------------------------------------------------------- inheritTagUncertainty *)
@@ -382,4 +383,13 @@ Definition step_orig (parse : string -> parse_result) (st : state) (c : call) : 
   match c with
   | CUpd nm (UQuery qs) => update_query_orig parse st nm qs
   | _ => step parse st c
+  end.
+
+(* I/O failure of the state file.  Every successful path of the three API functions ends in
+   `return mgr.saveState()`: when that fails the caller gets the error, the tag table keeps the
+   change (there is no rollback).  [step] is the API with a state directory that works. *)
+Definition step_savefail (parse : string -> parse_result) (st : state) (c : call) : result * state :=
+  match step parse st c with
+  | (Ok, st') => (Err ESaveState, st')
+  | x => x
   end.
